@@ -5,14 +5,17 @@ import numpy as np
 from common import xr, xvec, from_xr, from_xvec, num_close
 import diaglib as D
 import diagoracle as O
+from props import c16v
 
 ID = "C16"
-TARGETS = ["Proofs.C16"]
+TARGETS = ["Proofs.C16", "Proofs.C16More"] + c16v.TARGETS
 GEN_PREFIXES = []
 MODELLED = ["obsfcst", "qq", "scatter", "cond", "freq", "hist", "sort", "marginal", "reliability", "invreliability",
-            "discrimination", "roc", "performance", "taylor", "error", "pithist", "spreadskill", "bsdecomp", "standard"]
-ORACLE_ONLY = ["droc", "droc0", "murphy", "economicvalue", "igncontrib", "timeseries", "meteo", "against", "change"]
-UNMODELLED = ["fss", "autocorr", "autocov", "rank", "impact", "mapimpact", "map", "maprank"]
+            "discrimination", "roc", "performance", "taylor", "error", "pithist", "spreadskill", "bsdecomp", "standard",
+            "droc0", "droc", "against", "change", "igncontrib", "economicvalue", "murphy", "timeseries", "meteo"]
+ORACLE_ONLY = []
+VIEWS_MODELLED = ["rank", "impact", "map", "maprank", "mapimpact"]      # -type views of a standard metric: props/c16v.py
+UNMODELLED = ["fss", "autocorr", "autocov"]
 THEOREMS = {"Proofs.C16": ["VerifModel.C16." + t for t in [
     "C16_partition_ho", "C16_partition_oc", "C16_partition_hist", "C16_partition_ocf", "C16_bins_partition_last",
     "C16_bins_last_outside", "C16_bins_partition_reliability", "C16_bins_partition_invreliability",
@@ -29,13 +32,25 @@ THEOREMS = {"Proofs.C16": ["VerifModel.C16." + t for t in [
     "C16_def_error", "C16_def_standard", "C16_def_bsdecomp", "C16_bsCases",
     "C16_def_taylor",
     "C16_fill_vertices", "C16_fill_no_nan", "C16_fill_length", "C16_fill_complete", "C16_fill_one_sided", "C16_def_fill",
-    "C16_obsfcst_bands"]]}
+    "C16_obsfcst_bands"]],
+    "Proofs.C16More": ["VerifModel.C16." + t for t in [
+        "C16_def_droc_point", "C16_def_droc", "C16_def_droc0", "C16_droc_default_thresholds", "C16_droc_endpoints",
+        "C16_def_against_layers", "C16_def_against", "C16_against_pairs",
+        "C16_def_change", "C16_changeCases", "C16_def_change_figure", "C16_bins_partition_change", "C16_counts_total_change",
+        "C16_def_murphy_point", "C16_def_murphy",
+        "C16_def_economicvalue", "C16_economicvalue_degenerate", "C16_economicvalue_ratios",
+        "C16_def_igncontrib_partial", "C16_igncontrib_zero_prob", "C16_igncontrib_edges", "C16_counts_total_igncontrib",
+        "C16_timeseries_valid_time", "C16_def_timeseries_runs", "C16_def_timeseries_obs", "C16_timeseries_layout",
+        "C16_def_meteo_line", "C16_def_meteo_x", "C16_meteo_bands", "C16_meteo_quantile_order", "C16_meteo_layout"]]}
+THEOREMS.update(c16v.THEOREMS)
 TRUSTED_BASE = [
     "Lean 4.33 kernel; axioms propext, Classical.choice, Quot.sound only",
-    "Spec/Diagram.lean: my reading of each diagram's defining statistic (Wilks; Taylor 2001; Roebber 2009; Murphy 1973; "
-    "verif help texts), and of 'binned range' = [first edge, last edge]",
-    "Model/Diagram.lean is hand-written from output.py / metric.py / util.bin and tied to the code only by the "
-    "correspondence stream diag.artists (differential testing, as good as the inputs it sees)",
+    "Spec/Diagram.lean, Spec/DiagramMore.lean: my reading of each diagram's defining statistic (Wilks; Taylor 2001; Roebber 2009; "
+    "Murphy 1973; Richardson 2000 (value score from hit rate, false alarm rate, base rate); Roulston & Smith 2002 (ignorance); "
+    "Ehm et al. 2016 / Dimitriadis et al. 2023 (elementary scores, Murphy diagram); verif help texts), and of 'binned range' = "
+    "[first edge, last edge]",
+    "Model/Diagram.lean, Model/DiagramMore.lean are hand-written from output.py / metric.py / util.bin and tied to the code only by "
+    "the correspondence streams diag.artists / diag.cli / diag.sequence (differential testing, as good as the inputs they see)",
     "the harness: tagging of Axes.plot/bar/scatter/fill calls by their verif caller, the per-diagram rule that separates data "
     "series from decoration (diaglib.select), read-back of Line2D/Rectangle/PathCollection/Polygon data from the live figure at "
     "Output._save_plot; that matplotlib turns these artists into the picture is trusted; a Polygon's closing vertex "
@@ -46,6 +61,19 @@ TRUSTED_BASE = [
     "sqrt(rmse^2-me^2) near 0); cos(arccos r) = r and sin(arccos r) = sqrt(1-r^2); np.sort, np.histogram, np.percentile, "
     "np.median, np.corrcoef as modelled (Base/Vec, Model/Aggregator, Model/DetMetrics)",
     "sqrt as the parameter Tr; C16_def_taylor assumes |r| <= 1 (Cauchy-Schwarz for the real sqrt; NumPy clips)",
+    "np.linspace (DRoc's 31 forecast thresholds, IgnContrib's edges, Murphy's thresholds, the cost-loss ratios) modelled in exact "
+    "rational arithmetic (the values that meet the data grid - t, t+-2, 0, 1/8, 1/4, 1/2, 3/4, 1 - are exact in binary64 too); "
+    "np.log2 = ln / ln 2 with ln from Tr (lawful: ln 1 = 0, increasing); Murphy's float32 accumulator and np.std/2*k/5 in "
+    "Against within the tolerance 1e-6 / exact comparisons on the half-integer grid; np.unique(return_index) = first occurrence",
+    "TimeSeries / Meteo: the (time, lead time, location) array of get_scores is handed to the model cell by cell in the order the "
+    "code reduces it (location innermost for TimeSeries; runs innermost, then locations, for Meteo); datenum = unixtime / 86400",
+    "views (-type rank/impact/map/maprank/mapimpact): Spec/DiagramViews.lean is my reading of the comments, labels and docstrings of "
+    "verif.output.Standard (there is no help text beyond the list of -type values); Model/DiagramViews.lean is hand-written from "
+    "_plot_rank_core / _plot_impact_core / _map_core / _plot_mapimpact_core and tied to the code by the stream diag.view; read-back of "
+    "bar patches (left edge, height, width, bottom) and of scatter collections (offsets, sizes, colour array, colour limits, face "
+    "colour) from the live figure; np.argsort on rows of 2-3 scores is stable on this NumPy (2.5, x86 SIMD sort: NOT for >= 4 inputs); "
+    "comparisons that rounding decides (scores of different inputs that are equal in exact arithmetic but computed in floats, a "
+    "difference exactly on the draw tolerance, all scores equal) are detected by the exact oracle and then not judged",
 ]
 ASSUMPTIONS = [
     "inputs share their time / lead time / location coordinates (matching is C01-C03's subject); probabilities on a dyadic "
@@ -56,7 +84,21 @@ ASSUMPTIONS = [
     "(XConditional's default func; its docstring says mean)",
     "modelled + proved: " + ", ".join(MODELLED) + "; scatter's conditional-quantile curves only with -r (data-derived default "
     "edges are float linspace/percentile: not modelled, not checked); performance's potential curves (-simple off) not checked",
-    "oracle only (no Lean model): " + ", ".join(ORACLE_ONLY),
+    "oracle only (no Lean model): " + (", ".join(ORACLE_ONLY) or "none"),
+    "droc / droc0: -b below, below=, above, above= (a within type needs two thresholds: IndexError in the code), default forecast "
+    "thresholds (not the Precip list, no -xlog/-ylog); against: 2 or 3 inputs, same cases in every input; igncontrib: fewer than "
+    "11000 cases (N = 11 bins) in the tie, the theorems for every N, C16_def_igncontrib_partial for samples without a case that "
+    "gave probability 0 to the outcome, C16_igncontrib_zero_prob for the +inf of a bin that holds such a case; economicvalue: cost-loss ratios in [0, 1]; "
+    "timeseries: the same ensemble size in every input; meteo: one input, quantile levels distinct",
+    "views of a standard metric, modelled + proved in part (props/c16v.py): " + ", ".join(VIEWS_MODELLED) + " for -m mae|bias|rmse|corr; "
+    "rank with 2-3 inputs and -x leadtime|location|time (a draw is declared by the FIRST TWO inputs only, ties go to the earlier input, "
+    "to the later one for positively oriented scores; with >= 4 inputs np.argsort breaks exact ties platform-dependently: not covered); "
+    "impact with equidistant -r edges only (the code's cells are centre +- half the width of the FIRST bin: with other edges they are "
+    "not the bins; reported, not in the stream), whatever -m is the contribution is the difference of the SQUARED errors (the "
+    "docstring says MAE), -simple does not remove the marginal bars (the flag is tested as a bound method); the layout-dependent "
+    "coordinates of impact's marginal bars (bottom of the x-axis bars = lower y-limit, left end of the y-axis bars) are not compared; "
+    "maps without a background map (cartopy is not installed), marker colours as data values and colour limits (not compared when all "
+    "scores are equal: matplotlib widens the scale), maprank's min/max marking and mapimpact's sizes by correspondence + oracle only (no theorem)",
     "NOT covered at all: " + ", ".join(UNMODELLED) + "; -x for taylor/performance/bsdecomp/qq/scatter only leadtime/location; "
     "-agg other than mean; -acc; -hist/-sort only for obs and fcst; obsfcst/standard with -x none (bar graph); of the users of "
     "util.fill only the bands of obsfcst -q and meteo are read back from a diagram (the reliability confidence / no-skill areas "
@@ -66,12 +108,13 @@ ASSUMPTIONS = [
     "'observed' bar of the first bin starts 0.01 left of 0 and with non-uniform -q edges bars leave their bins (cosmetic: "
     "mpl.bar align='center')",
 ]
-RULE = ("diag.artists: for each of 28 diagrams random datasets (deterministic / probabilistic with p<t>, q<level>, pit / "
+RULE = ("diag.artists: for each of 28 diagrams (all of them modelled) random datasets (deterministic / probabilistic with p<t>, q<level>, pit / "
         "ensemble e<k>; 1-3 inputs; 2-5 times x 2-3 lead times x 1-4 locations; values on a half-integer grid, probabilities "
         "on k/8 incl. 0 and 1, NaNs per cell and per lead time) x the diagram's options (-r, -q, -b, -x, -simple); the real "
         "Output.plot is run in-process, the artists read back and compared with (a) the Lean model on the vectors "
-        "Data.get_scores returns and (b) an independent recomputation from the raw arrays; diag.cli: the same through "
-        "verif.driver.run on text files; diag.bin: util.bin on random edges/values; an op is non-trivial if the figure "
+        "Data.get_scores returns and (b) an independent recomputation from the raw arrays; against with 2 or 3 inputs (3: six "
+        "panels); diag.cli: the same through verif.driver.run on text files (also droc, change, against, igncontrib, economicvalue, "
+        "murphy, timeseries); diag.bin: util.bin on random edges/values; an op is non-trivial if the figure "
         "holds at least one finite data point. diag.fill: the real verif.util.fill on a fresh Agg figure, the Polygon read back "
         "from the axes and compared exactly with Model.fillPolygon and with the rule written out in judge_fill: every "
         "missingness pattern of (lower, upper) for n <= 3 (quick: 85) / n <= 4 (thorough: 341), every pattern with a NaN in x for "
@@ -88,9 +131,19 @@ RULE = ("diag.artists: for each of 28 diagrams random datasets (deterministic / 
         "classes (every ordered pair, also a diagram twice, of qq/scatter/freq, cond/error/taylor, hist/sort without -x — "
         "each group fetches one get_scores cache key: ((Obs, Fcst), input, none, None), (.., none, 0), ((field,), input, none, None) "
         "— 64 in quick, 384 in thorough; 30 / 300 random sequences over the det menu (+ performance, obsfcst, standard, "
-        "against, change, droc) and the prob menu with the usual options, prob diagrams on a common threshold); each diagram's artists are compared with "
+        "against, change, droc, droc0, timeseries) and the prob menu (+ igncontrib, economicvalue, murphy, timeseries) with the usual options, prob diagrams on a common threshold); each diagram's artists are compared with "
         "the Lean model answering it as if it were alone, with the documented series, and with the same diagram drawn from a "
-        "freshly built Data object (any difference: kind history-dependence)")
+        "freshly built Data object (any difference: kind history-dependence). "
+        "diag.view (props/c16v.py): for -type rank (30 / 400 datasets), impact (20 / 250), map, maprank (16 / 150 each), mapimpact "
+        "(14 / 150) with -m mae|bias|rmse|corr: 1-3 inputs on 2-4 times x 2-4 lead times x 2-5 locations (a quarter of the locations "
+        "repeat the lat/lon of an earlier one), an input copying another's forecasts everywhere or in one lead time / location (ties), "
+        "observation + constant (equal absolute errors), constant within a lead time / location (corr undefined for that input "
+        "only: a row with a missing score for some inputs), missing cells and whole lead times / locations; every 15th dataset has a "
+        "number of inputs the view refuses (error expected); 2 / 12 regression datasets for the repaired draw-on-invalid-row defect "
+        "(three inputs, corr, the first two tie where the third has no score); the real Output.plot_rank / plot_impact / map / "
+        "plot_mapimpact run in-process, bar patches and scatter collections are read back and compared with the Lean model on the "
+        "vectors Data.get_scores returns and with an exact-arithmetic (fractions.Fraction for mae/bias) recomputation from the raw arrays; "
+        "diag.viewcli (8 / 80): the same through verif.driver.run -type <view> on text files")
 EXHAUSTIVE = {"quick": False, "thorough": False}
 EXHAUSTIVE_NOTE = ("random datasets; the partition / count / order / band-polygon theorems are unbounded; diag.fill is "
                    "exhaustive over the missingness patterns of two envelopes of up to 3 (quick) / 4 (thorough) points")
@@ -99,7 +152,7 @@ LEVEL_TEXT = ("Lean theorems: for the bin convention each diagram actually uses,
               "Discrimination, IgnContrib, Scatter, util.bin — half-open bins, the last one closed; SpreadSkill — bins "
               "(lo, hi], the first one closed; BsDecomp; Hist/Freq/Cond) and the bin counts sum to the cases in range; PitHist "
               "bars span their bins; one series (group) per input in input "
-              "order; the modelled series of 19 diagrams equal their defining statistics (reliability, invreliability "
+              "order; the modelled series of 28 diagrams equal their defining statistics (reliability, invreliability "
               "— with several levels of -q the figure is, level by level in -q order, one curve per input, the curve at position "
               "t*F+k being the statistic of the cases of level t and input k alone —, "
               "discrimination, roc incl. end points, qq, sort, obsfcst, marginal, hist, freq, cond, pithist heights, "
@@ -110,8 +163,32 @@ LEVEL_TEXT = ("Lean theorems: for the bin convention each diagram actually uses,
               "band on Option-valued samples; obsfcst's bands are such polygons between the i-th and the i-th last quantile line. The "
               "model is a pure function of the dataset: a diagram drawn after others from the same Data object is compared with the "
               "model's (and the oracle's) answer for that diagram alone and with a fresh render. The "
-              "model is tied to /repo by reading back the artists of the live figure; 9 further diagrams are covered by the "
-              "implementation-only oracle; fss, autocorr/autocov, rank, impact, mapimpact, maps are not covered.")
+              "model is tied to /repo by reading back the artists of the live figure. Proofs/C16More: droc / droc0 - every point is "
+              "(false alarm rate, hit rate) of the 2x2 table of the events 'forecast in the -b event of the forecast threshold' / "
+              "'observation in the -b event of -r', for all forecast thresholds, between (1,1) and (0,0); the default thresholds are 31 "
+              "equally spaced values on [t-10, t+10]; against - per ordered pair of inputs all forecast pairs, the pairs with an "
+              "observation and ten colour layers, layer k holding exactly the cases where one input's absolute error is smaller by more "
+              "than k/10 of the observations' standard deviation; change - the binned cases are exactly the (obs[d]-obs[d-1], "
+              "|obs[d]-fcst[d]|) of the cells valid in two consecutive runs, bins (e_{i-1}, e_i] with the first one closed partition "
+              "[first, last], counts add up, each point is (mean change, MAE); igncontrib - per probability bin (mean p, -(bins/N) "
+              "sum log2 p(outcome), count), counts add up, edges equally spaced with 11 <= N <= 25 (partial: no outcome given probability "
+              "0; with such a case the bin is drawn at +inf, proved separately); economicvalue - where Richardson's value (E_clim - E_f)/(E_clim - E_perf) with E_f = F a (1-s) + H s a + (1-H) s is "
+              "defined the diagram draws it, elsewhere 0 (all cost-loss ratios in [0,1]); murphy - the mean elementary score at each of "
+              "21 thresholds; timeseries - forecast / member / quantile lines: one per run in run order at the valid times (init + lead) "
+              "with the mean over the locations that have a value, the observation line: strictly increasing valid times, each with the "
+              "value of the first (run, lead time) cell that has this valid time; meteo - every line is the mean over locations of the "
+              "mean over runs at the valid times of the first run, quantile lines in ascending level whatever the order of -q, bands are "
+              "util.fill polygons between the i-th lowest and i-th highest line. "
+              "Views of a standard metric (Proofs/C16Views.lean): -type rank — np.argsort of a row is a "
+              "permutation of the inputs (every input holds exactly one rank position in every ranked row) ordered by ascending score, "
+              "equal scores in command-line order (Model = Spec for a fully valid row: draw iff the first two inputs are closer than the "
+              "tolerance, else the ranking, reversed for positively oriented scores); per input the counts over all positions sum to the "
+              "number of ranked rows, ranked + draws = fully valid rows (stacked fractions sum to 1), one bar container per input in "
+              "command-line order then None; -type impact — for equidistant edges the code's cell test is the bin (lo, hi], a case "
+              "contributes (x-obs)^2 - (y-obs)^2, cells in np.repeat x np.tile order, red iff > 0 / blue iff < 0 / none iff 0; -type map — "
+              "every location with a score has exactly one marker (with multiplicity for equal coordinates), none without, in location "
+              "order, colour values = the scores, one scatter per input in command-line order; mapimpact — a location is in exactly one "
+              "group iff its difference is not zero. fss, autocorr/autocov are not covered.")
 TECHNIQUE = "Lean 4 proof over a model of each diagram's series; differential correspondence on the live figure's artists"
 
 GRID = [0.0, 0.5, 1.0, 1.5, 2.0, 3.0]
@@ -343,7 +420,7 @@ def extra_evidence(rows):
     for r in rows:
         a = r["op"].split(" ")
         if a[0] not in ("bin", "fillpoly"):
-            for n in a[1].split("+"):
+            for n in (["view." + a[1]] if c16v.is_view(r["op"]) else a[1].split("+")):
                 per[n] = per.get(n, 0) + 1
     return {"modelled": MODELLED, "oracle_only": ORACLE_ONLY, "unmodelled": UNMODELLED, "renders_per_diagram": per}
 
@@ -354,9 +431,9 @@ SEQ_SEP = "@@"
 # cond error taylor performance: ((Obs, Fcst), none, 0);  hist sort against: ((field,), none, None);  change droc: (.., all, None);
 # reliability roc discrimination igncontrib murphy economicvalue: ((Obs, Threshold t), none, None)
 SEQ_DET = ["qq", "scatter", "freq", "cond", "error", "taylor", "hist", "sort"]
-SEQ_DET_MORE = ["performance", "obsfcst", "standard", "against", "change", "droc"]
+SEQ_DET_MORE = ["performance", "obsfcst", "standard", "against", "change", "droc", "droc0", "timeseries"]
 SEQ_PROB = ["reliability", "roc", "discrimination", "bsdecomp", "marginal", "invreliability", "spreadskill", "pithist",
-            "qq", "obsfcst"]
+            "qq", "obsfcst", "igncontrib", "economicvalue", "murphy", "timeseries"]
 
 
 def enc_seq(items, ds):
@@ -393,12 +470,13 @@ def gen_seq_ops(tier, rng):
         kind = rng.choice(["det", "det", "prob"])
         menu = SEQ_DET + SEQ_DET + SEQ_DET_MORE if kind == "det" else SEQ_PROB
         names = [rng.choice(menu) for _ in range(rng.choice([2, 3, 3]))]
-        ds = _with_cases(rng, kind, 2 if "against" in names else None, any(n in BIG for n in names))
+        ds = _with_cases(rng, kind, rng.choice([2, 2, 3]) if "against" in names else None, any(n in BIG for n in names))
         t = rng.choice([1.0, 2.0])
         items = []
         for n in names:
             o = gen_options(rng, n, ds) if rng.random() < 0.5 or kind == "prob" else opts_shared(n, ds)
-            if kind == "prob" and "r" in o and n in ("reliability", "roc", "discrimination", "bsdecomp"):
+            if kind == "prob" and "r" in o and n in ("reliability", "roc", "discrimination", "bsdecomp", "igncontrib",
+                                                     "economicvalue", "murphy"):
                 o["r"] = [t]                    # the same threshold: the same (Obs, Threshold) key
             items.append((n, o))
         yield enc_seq(items, ds)
@@ -413,7 +491,7 @@ def gen_ops(tier, rng):
     for kind in ("det", "prob", "ens"):
         for name in KIND_OF[kind]:
             for _ in range(reps if kind != "ens" else max(2, reps // 3)):
-                F = 2 if name == "against" else (1 if name == "meteo" else None)
+                F = rng.choice([2, 2, 3]) if name == "against" else (1 if name == "meteo" else None)
                 ds = _with_cases(rng, kind, F, name in BIG)
                 o = gen_options(rng, name, ds)
                 yield "diag.artists", D.enc_op(name, o, ds)
@@ -434,12 +512,12 @@ def gen_ops(tier, rng):
             yield "diag.artists", D.enc_op(name, o, ds)
     for k in range(30 if tier == "quick" else 300):
         name = rng.choice(["reliability", "roc", "qq", "obsfcst", "pithist", "cond", "taylor", "hist", "marginal", "standard",
-                           "invreliability"])
+                           "invreliability", "droc", "change", "against", "igncontrib", "economicvalue", "murphy", "timeseries"])
         band = False
         if k % 3 == 0:
             name, band = rng.choice(["obsfcst", "meteo"]), True
         kind = "prob" if name in KIND_OF["prob"] else "det"
-        ds = _with_cases(rng, kind, 1 if name == "meteo" else None, name in BIG, band=band)
+        ds = _with_cases(rng, kind, 1 if name == "meteo" else (2 if name == "against" else None), name in BIG, band=band)
         o = gen_options(rng, name, ds, band=band)
         if o.get("x") in ("location", "elev"):
             o["x"] = "leadtime"
@@ -450,10 +528,14 @@ def gen_ops(tier, rng):
         x = [rng.choice(edges + [0.25, 0.6, 1.25, float("nan")]) for _ in range(n)]
         y = [rng.choice(GRID + [float("nan")]) for _ in range(n)]
         yield "diag.bin", "bin %s %s %s" % (xvec(edges), xvec(x), xvec(y))
+    for item in c16v.gen_ops(tier, rng):        # the views of a standard metric (rank, impact, maps): props/c16v.py
+        yield item
 
 
 # ------------------------------------------------------------------ implementation side
 def impl(op):
+    if c16v.is_view(op):
+        return c16v.impl(op)
     a = op.split(" ")
     if a[0] == "bin":
         import verif.util
@@ -496,6 +578,8 @@ def _venc(cols):
 
 
 def lean_op(op):
+    if c16v.is_view(op):
+        return c16v.lean_op(op)
     a = op.split(" ")
     if a[0] in ("bin", "fillpoly"):
         return op
@@ -546,7 +630,40 @@ def lean_op(op):
                     for j, t in enumerate(ts):
                         s = data.get_scores([vf.Obs(), vf.Threshold(t)], f, verif.axis.No())
                         d["o%d" % j], d["p%d" % j] = [s[0]], [s[1]]
-                elif name in ("reliability", "discrimination", "roc", "bsdecomp"):
+                elif name in ("droc", "droc0"):
+                    s = data.get_scores([vf.Obs(), vf.Fcst()], f)               # the whole (time, lead time, location) array
+                    d["obs"], d["fcst"] = [s[0]], [s[1]]
+                elif name == "against":
+                    d["fa"] = [data.get_scores(vf.Fcst(), f, verif.axis.No())]
+                    s = data.get_scores([vf.Obs(), vf.Fcst()], f, verif.axis.No())
+                    d["obs"], d["fcst"] = [s[0]], [s[1]]
+                elif name == "timeseries":
+                    # per run d one slice per lead time (the values over the locations), as get_scores(field, f) holds them
+                    def runs(key, arr):
+                        for t in range(arr.shape[0]):
+                            d["%s%d" % (key, t)] = list(arr[t])
+                    runs("obs", data.get_scores(vf.Obs(), f))
+                    runs("fcst", data.get_scores(vf.Fcst(), f))
+                    M = data.get_num_members(f)
+                    d["nmem"] = [np.zeros(M)]
+                    for m in range(M):
+                        runs("e%d_" % m, data.get_scores(vf.Ensemble(m), f))
+                    for j, q in enumerate(o.get("q", [])):
+                        runs("q%d_" % j, data.get_scores(vf.Quantile(q), f))
+                elif name == "meteo":
+                    # per lead time l one slice per location (the values over the runs)
+                    def leads(key, arr):
+                        for l in range(arr.shape[1]):
+                            d["%s%d" % (key, l)] = list(arr[:, l, :].T)
+                    leads("obs", data.get_scores(vf.Obs(), f))
+                    leads("fcst", data.get_scores(vf.Fcst(), f))
+                    lo["q"] = [float(q) for q in (o["q"] if "q" in o else data.quantiles)]
+                    for j, q in enumerate(lo["q"]):
+                        leads("q%d_" % j, data.get_scores(vf.Quantile(q), f))
+                elif name == "change":
+                    s = data.get_scores([vf.Obs(), vf.Fcst()], f)
+                    d["obs"], d["fcst"] = list(s[0]), list(s[1])               # one slice per initialisation time
+                elif name in ("reliability", "discrimination", "roc", "bsdecomp", "igncontrib", "economicvalue", "murphy"):
                     sl = _slices(data, [vf.Obs(), vf.Threshold(o["r"][0])], f, o.get("x", "none"))
                     d["obs"], d["p"] = [s[0] for s in sl], [s[1] for s in sl]
                 elif name == "invreliability":
@@ -560,6 +677,8 @@ def lean_op(op):
                     s = data.get_scores([vf.Obs(), vf.Fcst(), vf.Quantile(min(qs)), vf.Quantile(max(qs))], f, verif.axis.No())
                     d["obs"], d["fcst"], d["lo"], d["hi"] = [s[0]], [s[1]], [s[2]], [s[3]]
                 per.append(";".join("%s=%s" % (k, _venc(v)) for k, v in d.items()))
+            if name in ("timeseries", "meteo"):
+                lo["tm"], lo["ld"] = [float(t) for t in data.times], [float(l) for l in data.leadtimes]
             axn = o.get("x", "leadtime" if name in ("obsfcst", "standard") else "none")
             if axn not in ("none", "no"):
                 axo = verif.axis.get(axn)
@@ -568,10 +687,10 @@ def lean_op(op):
                     xs = [t / 86400.0 for t in xs]
                 lo["ax"] = xs
     parts = []
-    for k in ("m", "b", "r", "q", "simple", "ax"):
+    for k in ("m", "b", "r", "q", "simple", "ax", "tm", "ld"):
         if k in lo:
             v = lo[k]
-            parts.append("%s=%s" % (k, xvec(v) if k in ("r", "q", "ax") else ("1" if v is True else v)))
+            parts.append("%s=%s" % (k, xvec(v) if k in ("r", "q", "ax", "tm", "ld") else ("1" if v is True else v)))
     return "diag %s %s %s" % (name, ";".join(parts) if parts else "-", " ".join(per))
 
 
@@ -585,6 +704,8 @@ def _vec_close(u, v, rtol=1e-9, atol=1e-9):
 
 
 def cmp(op, impl_out, model_out):
+    if c16v.is_view(op):
+        return c16v.cmp(op, impl_out, model_out)
     if model_out is None or model_out == "UNMODELLED":
         return True
     a = op.split(" ")
@@ -610,8 +731,8 @@ def cmp(op, impl_out, model_out):
         A = [s for s in A if s[2] != "_"]
     if len(A) != len(B):
         return False
-    atol = 1e-6 if a[1] in ("taylor", "error") else 1e-9
-    rtol = 1e-6 if "e@0=" in op else 1e-9            # ensemble-derived probabilities are float32 in verif
+    atol = 1e-6 if a[1] in ("taylor", "error", "murphy") else 1e-9       # Murphy accumulates in a float32 array
+    rtol = 1e-6 if ("e@0=" in op or a[1] == "murphy") else 1e-9            # ensemble-derived probabilities are float32 in verif
     for s, t in zip(A, B):
         if s[:3] != t[:3] or not _vec_close(s[3], t[3], rtol, atol) or not _vec_close(s[4], t[4], rtol, atol):
             return False
@@ -626,6 +747,8 @@ def _fmt(v):
 
 
 def judge(op, impl_out, spec_out):
+    if c16v.is_view(op):
+        return c16v.judge(op, impl_out, spec_out)
     a = op.split(" ")
     if a[0] == "bin":
         return judge_bin(a, impl_out)
@@ -794,6 +917,8 @@ def judge_bin(a, impl_out):
 
 
 def nontrivial(op, out):
+    if c16v.is_view(op):
+        return c16v.nontrivial(op, out)
     if out.startswith("E") or out == "-":
         return False
     if op.startswith("fillpoly "):
